@@ -1,4 +1,5 @@
 import MM.Props.C10
+import MM.Props.MemoTie
 
 #print axioms MM.Api.C10_init_inv
 #print axioms MM.Api.C10_step_inv
@@ -16,3 +17,4 @@ import MM.Props.C10
 #print axioms MM.Api.stepBuggy_eq_step
 #print axioms MM.Api.stepBuggyResults_not_idempotent
 #print axioms MM.Api.run_hist3
+#print axioms MM.Memo.tie_memoised
